@@ -2,11 +2,57 @@ package main
 
 import (
 	"encoding/base64"
+	"encoding/json"
+	"fmt"
+	"os"
 
 	"verifharness/common"
+	"verifharness/crashkit"
 )
 
 func stdB64(s string) string { return base64.StdEncoding.EncodeToString([]byte(s)) }
 
-func runExtra(r *common.Rand)            {}
-func replayExtra(c map[string]string) {}
+func runExtra(r *common.Rand) {
+	if !crashkit.Available() {
+		run.Extra["crash_injection"] = "strace injection unavailable: K cases skipped"
+		run.Count("crash:strace-unavailable")
+	} else {
+		for _, cc := range fixedCrashes() {
+			runCrash(cc)
+		}
+		n := run.Scale(3, 36)
+		for i := 0; i < n; i++ {
+			runCrash(genCrash(r))
+		}
+	}
+}
+
+func fixedCrashes() []crashCase {
+	doc := `{"auths":{"https://registry.example.com/":{"auth":"dXNlcjpwYXNz","email":"x@y"}},"HttpHeaders":{"User-Agent":"x"},"big":123456789012345678901234567890}`
+	return []crashCase{
+		{Kind: "K", K: -1, Init: &doc, Mode: 0o644, Op: opx{Op: "P", Addr: "registry.example.com", U: "u", P: "p:q", R: "rt"}},
+		{Kind: "K", K: -1, SubDir: true, Op: opx{Op: "P", Addr: "localhost:5000", U: "user", P: "secret"}},
+		{Kind: "K", K: -1, Init: &doc, Mode: 0o600, Op: opx{Op: "D", Addr: "https://registry.example.com/"}},
+	}
+}
+
+func replayExtra(c map[string]string) {
+	switch c["kind"] {
+	case "K":
+		cc := crashCase{Kind: "K", K: -1}
+		if v, ok := c["init"]; ok && v != "null" {
+			s := v
+			cc.Init = &s
+		}
+		fmt.Sscanf(c["mode"], "%d", &cc.Mode)
+		cc.SubDir = c["subdir"] == "true"
+		if err := json.Unmarshal([]byte(c["cop"]), &cc.Op); err != nil {
+			fmt.Fprintln(os.Stderr, "bad replay op:", err)
+			os.Exit(2)
+		}
+		fmt.Sscanf(c["k"], "%d", &cc.K)
+		if crashkit.Available() {
+			runCrash(cc)
+		}
+	}
+}
